@@ -281,12 +281,18 @@ def placed_case(draw):
     fr = draw(st.lists(st.integers(1, 94), min_size=npairs, max_size=npairs, unique=True))
     xi = [10.0 ** draw(st.sampled_from([-8.0, -7.0, -6.0, -5.0, -4.0, -3.0, -2.0, -1.0, -0.5])) * draw(st.floats(1.0, 3.0)) for _ in range(npairs)]
     return {"n": n, "nch": nch, "nref": draw(st.integers(1, 4)), "fr": [0.01 * f + 0.003 for f in fr], "xi": xi, "real_root": draw(st.floats(0.1, 0.9)) * draw(st.sampled_from([1, -1])),
-            "dt": 10.0 ** draw(st.floats(-3, 1)), "seed": draw(st.integers(0, 2**32 - 1))}
+            "dt": 10.0 ** draw(st.floats(-3, 1)), "seed": draw(st.integers(0, 2**32 - 1)),
+            "dt_int": draw(st.sampled_from([None, None, None, "int2", "npint5", "int1"]))}  # a whole-number sampling interval given as an integer
 
 
 def judge_placed(case):
     j = J()
     n, nch, nref, dt = case["n"], case["nch"], case["nref"], case["dt"]
+    dt_arg = dt
+    if case.get("dt_int"):
+        dt_arg = {"int2": 2, "npint5": np.int64(5), "int1": 1}[case["dt_int"]]
+        dt = float(dt_arg)
+        j.tag("dt-integer-typed")
     rng = rng_of(case["seed"])
     roots, truth = [], []
     for f, x in zip(case["fr"], case["xi"]):
@@ -316,7 +322,7 @@ def judge_placed(case):
     T, _ = np.linalg.qr(rng.normal(size=(nch, nch)))
     A = np.array([T @ np.diag(coef[:, i]) @ T.T for i in range(n + 1)])
     B = rng.normal(size=(n + 1, nref, nch))
-    out = sut(plscf.pLSCF_poles, [A.copy()], [B.copy()], dt, "per", 1024)
+    out = sut(plscf.pLSCF_poles, [A.copy()], [B.copy()], dt_arg, "per", 1024)
     if not j.check(not raised(out), "placed-raises", lambda: f"{out!r}"):
         return j
     Fn, Xi, Lam = np.asarray(out[0])[:, 0], np.asarray(out[1])[:, 0], np.asarray(out[3])[:, 0]
